@@ -14,14 +14,14 @@ import (
 )
 
 type TransferInput struct {
-	SrcMutex bool  `json:"src_mutex,omitempty"`
-	SrcFifo bool   `json:"src_fifo"`
-	Src     []int  `json:"src"`     // element codes as in hist.go
-	Form    string `json:"form"`    // native alias ptr ronly zero int nil
-	DstCap  int    `json:"dst_cap"` // 0 = none
-	DstOpts int    `json:"dst_opts"`
-	DstPol  int    `json:"dst_pol"` // <0 none
-	Dst     []int  `json:"dst"`
+	SrcMutex bool   `json:"src_mutex,omitempty"`
+	SrcFifo  bool   `json:"src_fifo"`
+	Src      []int  `json:"src"`     // element codes as in hist.go
+	Form     string `json:"form"`    // native alias ptr ronly zero int nil
+	DstCap   int    `json:"dst_cap"` // 0 = none
+	DstOpts  int    `json:"dst_opts"`
+	DstPol   int    `json:"dst_pol"` // <0 none
+	Dst      []int  `json:"dst"`
 }
 
 func cfgSnapshot(x any) map[string]any {
